@@ -403,6 +403,18 @@ def gen_cases(ctx: Ctx, per_key: int):
     for key in SHEAR15 * reps:
         cases.append({"key": list(key), "strain": UNEQUAL_ROWS, "c21": gen_cells(rng, 2).tolist(),
                       "variant": {"kind": "own"}, "stream": "unequal"})
+    # two exactly equal strain fractions (tetragonal / hexagonal cells: e1 = e2 ≠ e3 and the two other pairings): Tᵀ·diag(e)·T is
+    # then itself diagonal for the keys shearing the isotropic plane — a permutation of the input, not the input (seed C03-15)
+    for key in SHEAR15 * reps:
+        for odd in (0, 1, 2):                                              # the position of the fraction that differs
+            rows = []
+            for _ in range(2):
+                a, b = (float(x) for x in rng.uniform(0.1, 0.6, size=2))
+                if abs(a - b) < 0.05: b = a + 0.1
+                r = [a, a, a]; r[odd] = b
+                rows.append(r)
+            cases.append({"key": list(key), "strain": rows, "c21": gen_cells(rng, 2).tolist(),
+                          "variant": {"kind": "own"}, "stream": "planar-iso"})
     # malformed stream: a needed dictionary entry is missing (KeyError in the code, "error" in the model)
     for key in SHEAR15:
         for drop in ("orig", "rot"):
